@@ -75,6 +75,10 @@ func (x *fragX) stmt(s ast.Stmt, g gctx) {
 						vObj = c.Info.Defs[id]
 					}
 					if vObj != nil && x.call(call, g, vObj, src) {
+						if _, isMap := c.Info.TypeOf(s.X).Underlying().(*types.Map); isMap {
+							last := &x.evs[len(x.evs)-1]
+							last.Kind, last.Expr = KMap, KChild
+						}
 						return
 					}
 				}
